@@ -33,8 +33,8 @@ def schedules(cap, full):
             [(1, 0), (cap, 1), (1, 0)],
             [(cap, cap), (cap, 0), (1, 1)],
         ]
-    out = []
-    for steps in itertools.product(itertools.product(fs, ds), repeat=3):
+    out = schedules(cap, False)
+    for steps in itertools.product(itertools.product(fs, ds), repeat=2):
         out.append(list(steps))
     return out
 
@@ -78,5 +78,33 @@ def all_harnesses():
     return hs
 
 
+def extra_harnesses():
+    hs = []
+    # FirFilter (shared harness body with C11)
+    for nt in (1, 2, 3):
+        for deci in (1, 2, 3):
+            base = nt + deci - 1
+            for cap in (max(base, 2), base + 1):
+                for si, s in enumerate(([(1, cap)] * 3, [(cap, 0), (cap, 0), (cap, 1)], [(cap, 0), (1, 1), (cap, 1)], [(cap, cap), (cap, 0), (1, 1)])):
+                    hs.append(Harness(f"c08_fir_k{nt}_d{deci}_c{cap}_{sname(s)}", f"crate::c08::fir({nt}, {deci}, 6, {cap}, {rs_sched(s)}, 10)",
+                                      unwind=16, unit="FirFilter::work", timeout=1500,
+                                      shape={"block": "fir", "taps": nt, "deci": deci, "L": 6, "cap": cap, "schedule": s},
+                                      core=(nt == 2 and deci == 2 and cap == base + 1 and si in (1, 2))))
+    # AuDecode: header 28 bytes + data; input capacity must hold the 20 header-rest bytes
+    for nd in (4, 5, 7):
+        for si, s in enumerate(([(28, 0), (3, 1), (64, 8)], [(7, 0), (7, 0), (14, 0), (3, 0), (2, 1)], [(33, 8), (1, 8), (64, 8)], [(28, 0), (1, 0), (1, 0), (64, 1)])):
+            for cap_out in (1, 8):
+                hs.append(Harness(f"c08_audec_n{nd}_s{si}_o{cap_out}", f"crate::c08::au_decode({nd}, 40, {cap_out}, {rs_sched(s)}, 14)", unwind=44,
+                                  unit="AuDecode::work", timeout=1800, shape={"block": "audecode", "data_bytes": nd, "cap_out": cap_out, "schedule": s},
+                                  core=(nd == 5 and si in (0, 2) and cap_out == 8)))
+    for l in (1, 2):
+        for cap in (2, 3, 5):
+            for si, s in enumerate(([(1, 1)] * 3, [(2, 0), (0, 2), (2, 1)])):
+                hs.append(Harness(f"c08_auenc_l{l}_c{cap}_s{si}", f"crate::c08::au_encode({l}, {cap}, {rs_sched(s)}, {40 // 1})", unwind=46,
+                                  unit="AuEncode::work", timeout=1800, shape={"block": "auencode", "L": l, "cap": cap, "schedule": s},
+                                  core=(l == 2 and cap == 3 and si == 1)))
+    return hs
+
+
 def harnesses(tier, seed):
-    return select(all_harnesses(), tier, seed, 8)
+    return select(all_harnesses() + extra_harnesses(), tier, seed, 8)
